@@ -617,6 +617,52 @@ def main(argv):
                 {"op": "FilePiece", "harness_line": ("F %s -" % st_.hex())[:4000], "impl": res[:200],
                  "how": "printf ... | gzip | gzip | <any tool reading stdin through util::FilePiece>   (or hx_compress: F <hex> -)"})
 
+    # --- truncation seen by util::FilePiece, on a pipe and on a REGULAR FILE (mmap path: Initialize tests the first
+    #     kMagicSize bytes of the mapping): a compressed stream cut at kMagicSize-1 / kMagicSize / kMagicSize+1, a few
+    #     bytes later, in the middle and one byte before the end.  From kMagicSize bytes on the magic is complete: the cut
+    #     must be an error.  Below kMagicSize no magic can be recognised: the bytes are plain data (see Not covered).
+    KM = 6
+    kres0, _ = codeclog.run_logged(impl, ["K"], timeout_case=10, preload=False)
+    if kres0 and kres0[0].startswith("K "):
+        KM = int(kres0[0].split()[1])
+    tdir = os.path.join(codeclog.scratch_dir(), "c15-fm-%d" % os.getpid())
+    os.makedirs(tdir, exist_ok=True)
+    tcases = []
+    for ki in ("gz", "bz", "xz"):
+        whole = enc(ki, ftext)
+        for cut in sorted(set([KM - 1, KM, KM + 1, KM + 2, 10, 18, len(whole) // 2, len(whole) - 1, len(whole)])):
+            tcases.append((ki, cut, whole[:cut], whole))
+    tlines = []
+    for i, (ki, cut, st_, whole) in enumerate(tcases):
+        pth = os.path.join(tdir, "t%d" % i)
+        open(pth, "wb").write(st_)
+        tlines.append("FM %s" % pth)
+        tlines.append("F %s %s" % (st_.hex(), csv(rand_frags(c.rng, len(st_), 7))))
+    tres, _ = codeclog.run_logged(impl, tlines, timeout_case=15, preload=False, max_bad=6)
+    for i, (ki, cut, st_, whole) in enumerate(tcases):
+        for res, path in ((tres[2 * i], "regular-file"), (tres[2 * i + 1], "pipe")):
+            c.count(("FT", ki, cut, path), bucket="filepiece/%s/truncated-%s" % (path, "below-kMagicSize=plain" if cut < KM else "at-kMagicSize" if cut == KM else "whole" if cut == len(whole) else "later"))
+            if res == "SKIPPED":
+                continue
+            rep = {"op": "FilePiece", "path": path, "codec": ki, "cut": cut, "stream_hex": st_.hex()[:400], "impl": res[:120],
+                   "how": "head -c %d file.%s > t; <any tool reading stdin through util::FilePiece> < t   (hx_compress: FM <file>; pipe: F <hex> <fragments>)" % (cut, ki)}
+            if cut == len(whole):
+                if not res.startswith("OK ") or bytes.fromhex(res.split(" ")[1]) != ftext[:-1]:
+                    c.violation("filepiece-%s-wrong-bytes: a whole %s stream read through FilePiece (%s) gave %s" % (path, ki, path, res[:60]), rep)
+            elif cut >= KM:
+                if not res.startswith("ERR"):
+                    c.violation("filepiece-truncated-accepted: a %s stream cut after %d bytes (kMagicSize = %d) and opened as a %s is read without an error: %s (stream %s)" % (
+                        ki, cut, KM, path, res[:80], st_.hex()[:40]), rep)
+            elif path == "pipe" and st_.startswith(MAGIC[ki]):
+                # on a pipe ReadCompressed sees the complete (2- or 3-byte) magic in the short header: an error as well
+                if not res.startswith("ERR"):
+                    c.violation("filepiece-truncated-accepted: a %s stream cut after %d bytes read from a pipe gives %s" % (ki, cut, res[:60]), rep)
+            else:
+                # regular file shorter than kMagicSize: Initialize does not look for a magic, the bytes are plain data
+                if res != "OK " + st_.hex():
+                    c.violation("filepiece-short-plain-wrong: the %d bytes %s (shorter than any magic test) read through FilePiece (%s) gave %s" % (cut, st_.hex(), path, res[:60]), rep)
+    shutil.rmtree(tdir, ignore_errors=True)
+
     for (lvl, d), res, ev in zip(zcases, z_res, z_ev):
         rep = {"op": "GZCompress", "harness_line": ("Z %d %s" % (lvl, hexd(d)))[:4000], "level": lvl, "data_len": len(d), "impl": res[:200]}
         if res == "SKIPPED":
